@@ -183,6 +183,13 @@ KERNELS = [
     dict(name='reusePieceSizeOk', file='torf/_reuse.py', func='is_file_match', pick=('if-test-containing', 'piece_size_min'),
          atoms={'torrent.piece_size_min': 'pmin', 'candidate.piece_size': 'cand', 'torrent.piece_size_max': 'pmax'},
          params=[('pmin', 'Int'), ('cand', 'Int'), ('pmax', 'Int')], ret='Bool'),
+    # --- Torrent.trackers getter / _trackers_changed (C16): when `announce` becomes a tier of its own, when `announce-list` is dropped
+    dict(name='announcePrepended', file='torf/_torrent.py', func='Torrent.trackers', pick=('if-test-guarding', 'tiers.insert(0'),
+         atoms={'announce is not None': 'has_announce', 'announce not in flat_urls': 'not_listed'},
+         params=[('has_announce', 'Bool'), ('not_listed', 'Bool')], ret='Bool'),
+    dict(name='announceListDropped', file='torf/_torrent.py', func='Torrent._trackers_changed',
+         pick=('if-test-guarding', "pop('announce-list'"), atoms={'len(trackers.flat)': 'n_urls'},
+         params=[('n_urls', 'Int')], ret='Bool'),
     # --- the parameter tables of magnet URIs (C13): literal tuples of names; an element that is itself a tuple
     #     contributes its first component
     dict(name='magnetKnownParameters', kind='strings', file='torf/_magnet.py', func='Magnet',
